@@ -52,7 +52,8 @@ type Env struct {
 	xfers    []Xfer
 	trace    []string
 	bankCall int
-	failAt   int // -1: never
+	order    []string // interleaving of hook calls and bank transfers, in the order they happened
+	failAt   int      // -1: never
 }
 
 func denomIdx(d string) int {
@@ -257,6 +258,7 @@ func (b *recBank) rec(from, to sdk.AccAddress, amt sdk.Coins) {
 			continue
 		}
 		b.e.xfers = append(b.e.xfers, Xfer{b.e.addrName(from, na), b.e.addrName(to, na), denomIdx(c.Denom), c.Amount})
+		b.e.order = append(b.e.order, "X:"+b.e.addrName(from, na))
 	}
 }
 func (b *recBank) SendCoins(ctx context.Context, from, to sdk.AccAddress, amt sdk.Coins) error {
@@ -328,6 +330,11 @@ type listener struct {
 
 func (l *listener) call(kind int, args string) error {
 	l.e.trace = append(l.e.trace, fmt.Sprintf("%d %d %s", l.idx, kind, args))
+	first := args
+	if i := strings.Index(args, " "); i >= 0 {
+		first = args[:i]
+	}
+	l.e.order = append(l.e.order, fmt.Sprintf("H%d:%s", kind, first))
 	for _, f := range l.fails {
 		if f == kind {
 			return fmt.Errorf("listener %d vetoes hook %d", l.idx, kind)
